@@ -26,13 +26,14 @@ type Roles struct {
 	ServiceT *types.Named
 	CallT    *types.Named
 
-	Serving     []*ssa.Function // accept connections; inlined views (inline.go) of ServingOrig
-	ServingOrig []*ssa.Function // the built functions behind Serving
-	ConnEntry   []*ssa.Function // started by `go` from a serving function (owns the connection's accounting)
-	ConnLoop    []*ssa.Function // the function (the go target or one of its callees) that holds the frame-read loop
-	Handle      *ssa.Function   // Service.HandleMessage (exported API)
-	WFuncs      []*ssa.Function // functions in package varlink that Write on a Call's connection
-	WSites      []CallSite
+	connExported int
+	Serving      []*ssa.Function // accept connections; inlined views (inline.go) of ServingOrig
+	ServingOrig  []*ssa.Function // the built functions behind Serving
+	ConnEntry    []*ssa.Function // started by `go` from a serving function (owns the connection's accounting)
+	ConnLoop     []*ssa.Function // the function (the go target or one of its callees) that holds the frame-read loop
+	Handle       *ssa.Function   // Service.HandleMessage (exported API)
+	WFuncs       []*ssa.Function // functions in package varlink that Write on a Call's connection
+	WSites       []CallSite
 
 	dispEntry     *ssa.Function
 	dispEntryDone bool
@@ -89,6 +90,19 @@ func discoverRoles(p *Prog) *Roles {
 				}
 			}
 			if raw >= 0 && buf >= 0 {
+				// (several named types may share the struct - `type readSide Conn` as a view of one direction -: the
+				// wrapper is the one with exported methods)
+				exported := 0
+				ms := types.NewMethodSet(types.NewPointer(named))
+				for i := 0; i < ms.Len(); i++ {
+					if ms.At(i).Obj().Exported() {
+						exported++
+					}
+				}
+				if ro.ConnT != nil && exported <= ro.connExported {
+					continue
+				}
+				ro.connExported = exported
 				ro.ConnT, ro.ConnRawIdx, ro.ConnBufIdx = named, raw, buf
 				ro.ConnRawName, ro.ConnBufName = st.Field(raw).Name(), st.Field(buf).Name()
 			}
